@@ -1,7 +1,7 @@
 (* C09 — static size and resource figures are true upper bounds. Statements only; proofs in
    Proofs/Ext*.v over the model Ms/ExtModel.v (extra_props.rs, script_size, descriptor weights,
    Plan accounting) and Ms/Sat.v (satisfier). *)
-From Verif Require Import ExecTr TypeCheck ExtModel ExtProofs ExtLemmas ExtThresh ExtSatSide ExtBounds ExtDesc ExtSize ExtExec.
+From Verif Require Import ExecTr TypeCheck ExtModel ExtProofs ExtLemmas ExtThresh ExtSatSide ExtBounds ExtTyped ExtDesc ExtSize ExtExec.
 Local Open Scope N_scope.
 
 (* ---- the witness bounds (DESIGN 5/C09 wit_bounds) ----
@@ -17,9 +17,7 @@ Local Open Scope N_scope.
    k <= n, an or_i branch without dissatisfaction figure is syntactically never dissatisfied by the
    satisfier ([nostk]), multi_a only in Tap. Satisfaction AND (where a figure exists)
    dissatisfaction are covered, for every asset environment, both modes.
-   PARTIAL: missing for full strength is [type_of m = ROk _ -> ext_safe as_written c m]; the class is
-   evaluated on every generated script of every run instead (evidence: theorem_class_coverage; all
-   of them are inside). *)
+   (Class form; C09_wit_bounds below removes the class for well-typed scripts.) *)
 Theorem C09_wit_bounds_code_partial :
   forall c ke se mall rhs m,
     senv_ok c se -> ksort_len_ok ke -> ext_safe as_written c m = true ->
@@ -27,6 +25,31 @@ Theorem C09_wit_bounds_code_partial :
     /\ dbounded se (dissat_data (ext_of c m)) (fst (sat_dissat ke se mall rhs m)).
 Proof. exact (wit_bounds_gen as_written). Qed.
 Print Assumptions C09_wit_bounds_code_partial.
+
+(* ---- FULL STRENGTH for the code as written: every well-typed script ----
+   [ext_struct_ok c m] is what the constructors and the context rules guarantee and typing does not
+   see: Threshold::new's k <= n for thresh, multi_a / sortedmulti_a only in Tapscript. With it,
+   every well-typed script is in the class ext_safe (Proofs/ExtTyped.v: type `d` => a
+   dissatisfaction figure exists; a missing figure => the satisfier never returns a stack), so the
+   witness bounds hold for every well-typed script, context, asset environment and mode. *)
+Theorem C09_typed_in_class :
+  forall c m t, type_of m = ROk t -> ext_struct_ok c m = true -> ext_safe as_written c m = true.
+Proof. exact typed_ext_safe. Qed.
+Print Assumptions C09_typed_in_class.
+
+Theorem C09_d_has_dissat_figure :
+  forall c m t, type_of m = ROk t -> ext_struct_ok c m = true -> c_dissat (t_corr t) = true ->
+                exists d, dissat_data (ext_of c m) = Some d.
+Proof. exact typed_d_has_dissat_figure. Qed.
+Print Assumptions C09_d_has_dissat_figure.
+
+Theorem C09_wit_bounds :
+  forall c ke se mall rhs m t,
+    senv_ok c se -> ksort_len_ok ke -> type_of m = ROk t -> ext_struct_ok c m = true ->
+    bounded se (sat_data (ext_of c m)) (snd (sat_dissat ke se mall rhs m))
+    /\ dbounded se (dissat_data (ext_of c m)) (fst (sat_dissat ke se mall rhs m)).
+Proof. exact wit_bounds_typed. Qed.
+Print Assumptions C09_wit_bounds.
 
 (* the same for EVERY rule set (any setting of the four switches): which switch a bound needs is
    part of [ext_safe fx c] *)
